@@ -26,6 +26,9 @@ func verbatimStream(r *Run) {
 	g := NewRNG(r.Seed, "verbatim")
 	run := func(src string, env map[string]*V, kind string) (string, string) {
 		cl := renderCaseLine(engineCfg{}, "", 0, src, env)
+		// a primer render that ends with a pending right-trim: nothing of it may reach the next render
+		renderImpl(engineCfg{}, "", 0, "a {% if true %}b{% endif -%}", nil)
+		renderImpl(engineCfg{}, "", 0, "c {{ 1 -}}", nil)
 		res := renderImpl(engineCfg{}, "", 0, src, RealiseEnv(env))
 		r.Count("kind=" + kind)
 		r.Count("res=" + strings.Fields(res)[0])
@@ -75,7 +78,7 @@ func verbatimStream(r *Run) {
 	for k := 0; k < n; k++ {
 		mine := r.Mine()
 		pre, post := text(), text()
-		switch k % 4 {
+		switch k % 5 {
 		case 0: // raw body verbatim — the body must not contain an endraw tag, nor a `{{` that could pair with a later `}}`
 			b := body(5, "endraw")
 			// the tokenizer may pair a `{{` inside the body with a `}}` after the endraw tag (a fact about the tokenizer,
@@ -106,6 +109,50 @@ func verbatimStream(r *Run) {
 			res, cl := run(src, env, "comment")
 			if o, ok := out(res); !ok || o != pre+post {
 				r.Violate("C05", "comment-contributes-nothing", cl, fmt.Sprintf("want %q got %s", pre+post, res))
+			}
+		case 4: // several raw and comment blocks in one template, in any order, with text between them
+			var src, want strings.Builder
+			safe := func(t string) string { return strings.NewReplacer("}", "", "%", "", "{", "").Replace(t) }
+			// bodies of complete tokens only: with several blocks in one template a lone `{{` (or `{{}}`, which is no
+			// object) would pair with a `}}` of a later block, a fact about the tokenizer and not about raw/comment
+			var whole []string
+			for _, b := range tagLikeBits {
+				nd := strings.Count(b, "{{") + strings.Count(b, "}}") + strings.Count(b, "{%") + strings.Count(b, "%}")
+				if nd == 0 && !strings.ContainsAny(b, "{}%") || nd == 2 && len(b) > 4 &&
+					(strings.HasPrefix(b, "{{") && strings.HasSuffix(b, "}}") || strings.HasPrefix(b, "{%") && strings.HasSuffix(b, "%}")) {
+					whole = append(whole, b)
+				}
+			}
+			body := func(maxBits int, forbid string) string {
+				for {
+					var sb strings.Builder
+					for i, n := 0, g.Intn(maxBits+1); i < n; i++ {
+						sb.WriteString(g.Pick(whole))
+					}
+					if !strings.Contains(sb.String(), forbid) {
+						return sb.String()
+					}
+				}
+			}
+			for i, m := 0, 2+g.Intn(3); i < m; i++ {
+				t := safe(text())
+				src.WriteString(t)
+				want.WriteString(t)
+				if g.Chance(50) {
+					b := body(4, "endraw")
+					src.WriteString("{% raw %}" + b + "{% endraw %}")
+					want.WriteString(b)
+				} else {
+					b := body(4, "endcomment")
+					src.WriteString("{% comment %}" + b + "{% endcomment %}")
+				}
+			}
+			if !mine {
+				continue
+			}
+			res, cl := run(src.String(), env, "raw-and-comment-blocks")
+			if o, ok := out(res); !ok || o != want.String() {
+				r.Violate("C05", "raw-bodies-kept-comment-bodies-dropped", cl, fmt.Sprintf("want %q got %s", want.String(), res))
 			}
 		case 2: // no tag or object opens: renders to itself
 			src := pre + body(4) + post
